@@ -417,9 +417,11 @@ Arguments TForm {V} v.
 
 (* http_request_load_body.  The body is read (and capped) first; then the
    content type decides.  [json_de] stands for
-   [serde_path_to_error::deserialize(&mut serde_json::Deserializer::from_slice(&body))]:
-   ONE value is deserialised off the front of the buffer and the rest of the
-   buffer is never looked at (there is no [jd.end()] in body.rs). *)
+     let jd = &mut serde_json::Deserializer::from_slice(&body);
+     let content = serde_path_to_error::deserialize(&mut *jd) ..?;
+     jd.end() ..?;                      // "The body must be one JSON document and nothing else."
+   i.e. the WHOLE buffer is one JSON text of the body type (white space
+   around it allowed); either failure is the same 400. *)
 Definition extract_typed_body {V} (json_de : str -> option V)
            (expected : ctype) (sp : spec) (h : hdr) (cap : N) (frames : list str)
   : res xerr (typed V) :=
@@ -596,6 +598,27 @@ Definition parse_boundary (ct : str) : boundary_res :=
       else BNoMultipart
   end.
 
+(* str::trim on ASCII *)
+Fixpoint trim_start (s : str) : str :=
+  match s with
+  | [] => []
+  | c :: t => if is_ascii_ws c then trim_start t else s
+  end.
+Definition trim (s : str) : str := trim_end (trim_start s).
+
+Fixpoint join_semi (parts : list str) : str :=
+  match parts with
+  | [] => []
+  | [p] => p
+  | p :: ps => p ++ 59 :: 32 :: join_semi ps
+  end.
+
+(* body.rs, in front of multer::parse_boundary:
+     content_type.split(';').map(|part| part.trim()).collect::<Vec<_>>().join("; ")
+   (every ';' splits, also one inside a quoted string: such a value is
+   re-joined with "; " in place of the ';' and the blanks around it) *)
+Definition normalize_ct (v : str) : str := join_semi (map trim (split_all 59 v)).
+
 (* MultipartBody::from_request: the boundary; the body then goes to multer
    through the capped stream *)
 Definition extract_multipart (h : hdr) : res xerr str :=
@@ -603,7 +626,7 @@ Definition extract_multipart (h : hdr) : res xerr str :=
   | HAbsent => Err XNoCt
   | HVal v =>
       if header_is_str v then
-        match parse_boundary v with
+        match parse_boundary (normalize_ct v) with
         | BOk b => Ok b
         | BDecode => Err XMimeParse
         | BNoMultipart => Err XNoMultipart
